@@ -186,6 +186,13 @@ def tt_dimscheck(  # noqa: PLR0912
         raise ValueError(
             "Negative dims aren't allowed in pyttb, see exclude_dims argument instead"
         )
+    # Catch modes past the last one here, once for all callers, instead of relying on
+    # each of them (or on an incidental IndexError further down) to notice
+    if np.any(dim_array >= N):
+        assert False, (
+            f"dims must contain values in [0,self.dims) but received {dim_array} "
+            f"for a tensor with {N} dimensions"
+        )
     if len(np.unique(dim_array)) != len(dim_array):
         raise ValueError(f"Dims provided: {dim_array} contain repeated entries")
 
